@@ -55,5 +55,6 @@ def main(tier, seed):
 
 
 def replay(rep_json):
-    print("replay: the witness records (model, k, variable); re-run ./check C12")
-    return 2
+    from framework.props import _modelprop
+
+    return _modelprop.replay_job("C12", rep_json, "framework.props.splitcheck", "replay_split")
